@@ -41,6 +41,17 @@ def tree_of(f):
     return {"par": par, "name": name, "disp": disp, "tv": tv, "table": table}, idx, dup
 
 
+def esc(x):
+    """ASCII image of a text for TLC (its strings are Latin-1): a homomorphism for concatenation and equality"""
+    if isinstance(x, str):
+        return "".join(c if ord(c) < 128 else "{u%04x}" % ord(c) for c in x)
+    if isinstance(x, list):
+        return [esc(y) for y in x]
+    if isinstance(x, dict):
+        return {k: esc(v) for k, v in x.items()}
+    return x
+
+
 def _variants(s, j):
     return [s, s.lower(), s.upper(), s.swapcase()][j % 4]
 
@@ -58,9 +69,9 @@ def make_events(f, idx, ns, quick, seed, budget, only=None):
         for fi, form in enumerate(forms):
             rems = [""]
             if t["has_value_child"]:
-                rems += ["/5", "/Abc def", "/3 m-per-s^2"]
+                rems += ["/5", "/Abc def", "/3 m-per-s^2", "/Cafe\u0301 5 \u212b"]         # not in Unicode normal form C
             else:
-                rems += ["/Extx", "/Extx/Exty", "/" + names[(n * 7 + fi) % len(names)]]
+                rems += ["/Extx", "/Extx/Exty", "/" + names[(n * 7 + fi) % len(names)], "/Re\u0301sume\u0301-\u2126"]
             for ri, rem in enumerate(rems):
                 for ci in range(4):
                     n += 1
@@ -100,8 +111,9 @@ def observe_with(schema, evs):
     import pandas as pd
     out = []
     texts = [e["text"] for e in evs]
-    dfl = pd.DataFrame({"c": list(texts)})
-    dfs = pd.DataFrame({"c": list(texts)})
+    labels = list(range(len(texts)))[::-1] if len(texts) % 2 else [2 * k + 7 for k in range(len(texts))]
+    dfl = pd.DataFrame({"c": list(texts)}, index=labels)      # row labels that are NOT 0..n-1 (reordered / filtered frames)
+    dfs = pd.DataFrame({"c": list(texts)}, index=labels)
     try:
         df_util.convert_to_form(dfl, schema, "long_tag", ["c"])
         df_util.convert_to_form(dfs, schema, "short_tag", ["c"])
@@ -136,7 +148,7 @@ def validate_schema(args):
     obs = observe((version, ns, evs))
     events = []
     for e, o in zip(evs, obs):
-        events.append({"ns": e["ns"], "okns": e["okns"], "raw": e["raw"], "folded": [x.casefold() for x in e["raw"]], "obs": o})
+        events.append({"ns": e["ns"], "okns": e["okns"], "raw": esc(e["raw"]), "folded": esc([x.casefold() for x in e["raw"]]), "obs": esc(o)})
     path = os.path.join(work, "tree_%s_%s.json" % (version, ns.strip(":") or "plain"))
     with open(path, "w") as fh:
         json.dump(dict(tree, events=events), fh)
@@ -199,7 +211,7 @@ def validate_generated(args):
     tree, idx, dup = tree_of(f)
     evs = make_events(f, idx, "", False, seed, 1, only=lambda t: t["name"].startswith("Gq"))
     obs = observe_with(schema, evs)
-    events = [{"ns": e["ns"], "okns": e["okns"], "raw": e["raw"], "folded": [x.casefold() for x in e["raw"]], "obs": o}
+    events = [{"ns": e["ns"], "okns": e["okns"], "raw": esc(e["raw"]), "folded": esc([x.casefold() for x in e["raw"]]), "obs": esc(o)}
               for e, o in zip(evs, obs)]
     path = os.path.join(work, "tree_generated.json")
     with open(path, "w") as fh:
